@@ -23,11 +23,18 @@ def module_info(name):
     tree = ast.parse(open(os.path.join(HERE, "rules", name + ".py")).read())
     info = {}
     fnames = {n.name for n in tree.body if isinstance(n, ast.FunctionDef)}
+    # module-level tables (e.g. RANKING_DRAWS) that a rule consults: their string constants name locals too
+    tables = {}
+    for n in tree.body:
+        if isinstance(n, ast.Assign) and len(n.targets) == 1 and isinstance(n.targets[0], ast.Name) and n.targets[0].id not in ("FAULTS", "BENIGN", "RULES", "EXPLANATION", "ASSUMPTIONS", "TRUSTED"):
+            tables[n.targets[0].id] = {t for c in ast.walk(n.value) if isinstance(c, ast.Constant) and isinstance(c.value, str) for t in IDENT.findall(c.value)}
     for fn in (n for n in tree.body if isinstance(n, ast.FunctionDef)):
         toks, calls, xcalls = set(), set(), set()
         for n in ast.walk(fn):
             if isinstance(n, ast.Constant) and isinstance(n.value, str):
                 toks |= set(IDENT.findall(n.value))
+            if isinstance(n, ast.Name) and n.id in tables:
+                toks |= tables[n.id]
             if isinstance(n, ast.Name) and n.id in fnames and n.id != fn.name:
                 calls.add(n.id)
             if isinstance(n, ast.Attribute) and isinstance(n.value, ast.Name) and re.fullmatch(r"c\d\d", n.value.id):
